@@ -95,6 +95,9 @@ CHAINS = [
     "x = 0\ny = 0\nz = 1\nu = 1\nwhile true:\n    x = x + 1 {p} x\n    z = z + 1 {1/2} z\n    u = u + 1\n    y = y + p*u*x*z + q*z\nend\n",
     "x = 0\ny = 0\nz = 1\nwhile true:\n    x = x + 1 {p} x\n    z = z + 1 {1/2} z\n    y = y + p**2*x*z**2 + p*z\nend\n",
     "x = 0\ny = 0\nz = 1\nwhile true:\n    z = z + 1 {1/2} z\n    y = y + p*z*x\n    x = x + 1 {p} x\nend\n",
+    # lagging copies (closed forms with special cases beyond n = 0)
+    "x = 0\ny = 0\nz = 0\nwhile true:\n    z = y\n    y = 2*x\n    x = Bernoulli(p)\nend\n",
+    "x = 0\ny = 1\nz = 2\nw = 0\nwhile true:\n    w = w + z\n    z = y\n    y = x\n    x = 1 {p} 0\nend\n",
     # the parameter enters through the initial block only, and reaches other variables through initial assignments
     "x = p\ny = 2*x + 1\nz = 0\nwhile true:\n    z = z + y\n    y = y + 1 {1/2} y - 1\n    x = x + 1\nend\n",
     "x = p\ny = x\nw = y*y\nz = 0\nwhile true:\n    z = z + w\n    w = w + y\n    y = y + 1\n    x = 2*x\nend\n",
@@ -226,8 +229,72 @@ def run_case(case):
                     res["sample"] = {"program": text, "goal": goal, "param": param,
                                      "true_derivative_n0..": [t.to_text() for t in truth],
                                      "polar": {m: str(s[0])[:200] for m, s in results.items()}}
+    # (c) the printed routes: SensitivityAction with -sens_diff / -sens for the first parameter and the first two goals; lines
+    #     "∂E(M) = v0; v1; ...; formula" are evaluated (listed special cases for small n, the formula beyond)
+    if params and not tainted():
+        try:
+            _printed_routes(text, program, params[0], case["input"]["goals"][:2], model, N, stats, res)
+        except CpuTimeout:
+            stats["refusals"]["timeout@printed"] = 1
+        except Exception as e:
+            k = "printed:" + exc_name(e)
+            stats["refusals"][k] = stats["refusals"].get(k, 0) + 1
     stats["states"] = model.states_seen
     stats["transitions"] = model.transitions
     if res["violations"]:
         res["status"] = "violation"
     return res
+
+
+def _printed_routes(text, program, param, goals, model, N, stats, res):
+    import contextlib
+    import io
+    import os
+    import re
+    import tempfile
+    import sympy
+    from .. import polar
+    from cli.actions.sensitivity_action import SensitivityAction
+
+    fd, path = tempfile.mkstemp(suffix=".prob", prefix="c10_")
+    os.write(fd, text.encode())
+    os.close(fd)
+    try:
+        for route in ("sensitivity_analysis_diff", "sensitivity_analysis"):
+            args = polar.cli_defaults()
+            args.goals = ["E(%s)" % g for g in goals]
+            args.sensitivity_analysis = None
+            args.sensitivity_analysis_diff = None
+            setattr(args, route, param)
+            buf = io.StringIO()
+            with cpu_limit(40):
+                with contextlib.redirect_stdout(buf):
+                    SensitivityAction(args)(path)
+            out = re.sub(r"\x1b\[[0-9;]*m", "", buf.getvalue())
+            for g in goals:
+                gp = parse_poly(g)
+                gs = str(sympy.sympify(g))
+                m = None
+                for line in out.split("\n"):
+                    mm = re.match(r"^∂(?:E\()?(.+?)\)? = (.*)$", line)
+                    if mm and str(sympy.sympify(mm.group(1))) == gs:
+                        m = mm
+                        break
+                if not m or "Piecewise" in m.group(2):
+                    stats["printed_not_parsed"] = stats.get("printed_not_parsed", 0) + 1
+                    continue
+                parts = [x.strip() for x in m.group(2).split(";")]
+                specials, formula = parts[:-1], sympy.sympify(parts[-1])
+                for n in range(max(N, len(specials) + 2) + 1):
+                    val = sympy.sympify(specials[n]) if n < len(specials) else polar.at_n(formula, n)
+                    t = model.moment(gp, n).diff(param)
+                    verdict, how, txt = polar.compare_value(val, t)
+                    stats["evaluations"] += 1
+                    if verdict == "neq":
+                        res["violations"].append({"sub": "printed d/d%s E(%s) via -%s" % (param, g, "sens_diff" if "diff" in route else "sens"),
+                                                  "detail": {"n": n, "expected": t.to_text(), "observed": txt, "printed": m.group(2)[:300],
+                                                             "program": text}})
+                        break
+    finally:
+        os.unlink(path)
+        polar.reset_settings()
